@@ -2,12 +2,13 @@ import WsVerif.Model.Proto
 import WsVerif.Ops.Stats
 import WsVerif.Ops.Peak
 import WsVerif.Ops.Track
+import WsVerif.Ops.Select
 /-! Line-protocol driver: one request per line on stdin, one response per line on stdout.
     Each `WsVerif/Ops/*.lean` file contributes a list of named operations. -/
 open WS WS.Proto
 
 def allOps : List (String × P String) :=
-  WS.Ops.Stats.ops ++ WS.Ops.Peak.ops ++ WS.Ops.Track.ops
+  WS.Ops.Stats.ops ++ WS.Ops.Peak.ops ++ WS.Ops.Track.ops ++ WS.Ops.Select.ops
 
 def dispatch (op : String) : P String :=
   match allOps.lookup op with
